@@ -153,3 +153,41 @@ Proof.
     unfold contains in Hc. cbn [fst snd] in Hc. apply andb_prop in Hc. destruct Hc as [C1 C2].
     apply Z.leb_le in C1, C2. lia.
 Qed.
+
+(* ---- unloaded modules: sorted vector + filter(contains); the lookup returns exactly the covering entries ---- *)
+Definition g_unloaded_table (p : profile) (ents : list (Z * Z)) : outcome (list (range * Z)) :=
+  do ranges <- omap (fun e => g_mr_MinidumpUnloadedModule p (fst e) (snd e)) ents; Ret (unloaded_build ranges).
+
+Lemma enumerate_from_nth {A} (l : list A) : forall k n a,
+  nth_error l n = Some a -> In (a, k + Z.of_nat n) (enumerate_from k l).
+Proof.
+  induction l as [|h t IH]; intros k [|n] a H; cbn in H; try discriminate.
+  - inversion H; subst. cbn [enumerate_from]. left. rewrite Z.add_0_r. reflexivity.
+  - cbn [enumerate_from]. right. replace (k + Z.of_nat (S n)) with (k + 1 + Z.of_nat n) by lia. apply IH. exact H.
+Qed.
+
+Lemma unloaded_end_to_end p ents : u64_ents ents ->
+  exists t, g_unloaded_table p ents = Ret t /\
+    StronglySorted (fun a b => range_lt (fst b) (fst a) = false) t /\
+    forall x i, In i (unloaded_at t x) <->
+      0 <= i /\ exists b s, nth_error ents (Z.to_nat i) = Some (b, s) /\ s <> 0 /\ b + s < two64 /\ b <= x < b + s.
+Proof.
+  intros H. set (ranges := map (fun e => mk_range (fst e) (snd e)) ents). exists (unloaded_build ranges).
+  split.
+  { unfold g_unloaded_table.
+    rewrite (omap_pure _ (fun e => mk_range (fst e) (snd e)) (fun e => u64 (fst e) /\ u64 (snd e)));
+      [reflexivity|intros a [Ha Hb]; apply g_mr_MinidumpUnloadedModule_eq; assumption|exact H]. }
+  split; [apply (unloaded_exact ranges 0)|].
+  intros x i. rewrite unloaded_iff. split.
+  - intros [r [Hin Hc]]. apply enumerate_from_in in Hin. rewrite Z.sub_0_r in Hin. destruct Hin as [H0 Hn].
+    split; [exact H0|]. apply nth_error_map_inv in Hn. destruct Hn as [[b s] [Hn Hr]]. cbn [fst snd] in Hr.
+    exists b, s. split; [exact Hn|]. eapply mk_range_contains; eassumption.
+  - intros [H0 [b [s [Hn [Hs [Hlt Hx]]]]]].
+    assert (Hu : u64 b /\ u64 s).
+    { unfold u64_ents in H. rewrite Forall_forall in H. apply (H (b, s)). eapply nth_error_In. exact Hn. }
+    exists (b, b + s - 1). split.
+    + replace i with (0 + Z.of_nat (Z.to_nat i)) by lia. apply enumerate_from_nth.
+      unfold ranges. erewrite map_nth_error; [|exact Hn]. cbn [fst snd].
+      rewrite mk_range_some; [reflexivity| |exact Hlt]. unfold u64 in Hu. lia.
+    + unfold contains. cbn [fst snd]. apply andb_true_intro. split; apply Z.leb_le; lia.
+Qed.
